@@ -5,10 +5,12 @@
 package main
 
 import (
+	"bytes"
 	"flag"
 	"fmt"
 	"go/ast"
 	"go/parser"
+	"go/printer"
 	"go/token"
 	"os"
 	"path/filepath"
@@ -51,6 +53,7 @@ type facts struct {
 	ctorReturns      map[string][]string // constructor new… -> the struct types of the composite literals it returns
 	factoryCtors     map[string][]string // factory closure of newTreeSimple -> the constructors it calls
 	simpleMethods    map[string][]string // type …Simple -> the methods declared on it
+	genSkeleton      map[string][]string // generator loop -> its tests, calls, continues and returns in source order
 	treeFields       map[string][]string // field of the treeSimple literal -> the factory called and its arguments
 }
 
@@ -58,7 +61,7 @@ func main() {
 	repo := flag.String("repo", "/repo", "repository root")
 	out := flag.String("out", "", "output Lean file")
 	flag.Parse()
-	f := &facts{consts: map[string]string{}, errChanCap: map[string]int{}, pkgVarWrites: map[string][]string{}, tagged: map[string]string{}, exitCodes: map[string]int{}, aliasPairs: map[string]bool{}, entryConfig: map[string]string{}, pipeEmbeds: map[string][]string{}, pipeMethods: map[string][]string{}, workerCalls: map[string][]string{}, treeCalls: map[string][]string{}, ctorReturns: map[string][]string{}, factoryCtors: map[string][]string{}, treeFields: map[string][]string{}, simpleMethods: map[string][]string{}}
+	f := &facts{consts: map[string]string{}, errChanCap: map[string]int{}, pkgVarWrites: map[string][]string{}, tagged: map[string]string{}, exitCodes: map[string]int{}, aliasPairs: map[string]bool{}, entryConfig: map[string]string{}, pipeEmbeds: map[string][]string{}, pipeMethods: map[string][]string{}, workerCalls: map[string][]string{}, treeCalls: map[string][]string{}, ctorReturns: map[string][]string{}, factoryCtors: map[string][]string{}, treeFields: map[string][]string{}, simpleMethods: map[string][]string{}, genSkeleton: map[string][]string{}}
 	fset := token.NewFileSet()
 	for _, dir := range []string{*repo, filepath.Join(*repo, "markdown"), filepath.Join(*repo, "cmd", "gtree")} {
 		ents, err := os.ReadDir(dir)
@@ -114,6 +117,13 @@ func recvName(fd *ast.FuncDecl) string {
 		return id.Name + "." + fd.Name.Name
 	}
 	return fd.Name.Name
+}
+
+// srcStr: the source text of a node, on one line
+func srcStr(n ast.Node) string {
+	var b bytes.Buffer
+	printer.Fprint(&b, token.NewFileSet(), n)
+	return strings.Join(strings.Fields(b.String()), " ")
 }
 
 func exprStr(e ast.Expr) string {
@@ -324,6 +334,76 @@ func guardedSelects(body *ast.BlockStmt) map[ast.Stmt]bool {
 func (f *facts) scanFunc(fset *token.FileSet, rel string, fd *ast.FuncDecl) {
 	name := recvName(fd)
 	where := rel + ":" + name
+	// the row loops of the four root generators: tests, calls, continues and returns in source order
+	if fd.Recv != nil && len(fd.Recv.List) == 1 && (fd.Name.Name == "generate" || fd.Name.Name == "generateIter" || fd.Name.Name == "worker") {
+		rt := strings.TrimPrefix(exprStr(fd.Recv.List[0].Type), "*")
+		if rt == "rootGeneratorSimple" || rt == "rootGenerator" || (rt == "rootGeneratorPipeline" && fd.Name.Name == "worker") {
+			key := rt + "." + fd.Name.Name
+			interesting := map[string]bool{"Scan": true, "generate": true, "Text": true, "next": true, "Err": true, "isRoot": true, "reset": true,
+				"push": true, "dfs": true, "newStack": true, "append": true, "yield": true, "sendErr": true, "newCounter": true, "Split": true}
+			// the loop: the first for / range statement whose body calls nodeGenerator.generate
+			var loop ast.Node
+			ast.Inspect(fd.Body, func(n ast.Node) bool {
+				if loop != nil {
+					return false
+				}
+				var body *ast.BlockStmt
+				switch x := n.(type) {
+				case *ast.ForStmt:
+					body = x.Body
+				case *ast.RangeStmt:
+					body = x.Body
+				}
+				if body == nil || len(body.List) == 0 {
+					return true
+				}
+				if as, ok := body.List[0].(*ast.AssignStmt); ok && strings.Contains(srcStr(as), "nodeGenerator.generate(") {
+					loop = n
+					return false
+				}
+				return true
+			})
+			if loop != nil {
+				add := func(t string) { f.genSkeleton[key] = append(f.genSkeleton[key], t) }
+				ast.Inspect(loop, func(n ast.Node) bool {
+					switch x := n.(type) {
+					case *ast.ForStmt:
+						if x.Cond != nil {
+							add("for:" + srcStr(x.Cond))
+						}
+					case *ast.RangeStmt:
+						add("range:" + srcStr(x.X))
+					case *ast.IfStmt:
+						add("if:" + srcStr(x.Cond))
+					case *ast.BranchStmt:
+						add(x.Tok.String())
+					case *ast.ReturnStmt:
+						add("return")
+					case *ast.CallExpr:
+						name := ""
+						switch fn := x.Fun.(type) {
+						case *ast.SelectorExpr:
+							name = fn.Sel.Name
+						case *ast.Ident:
+							name = fn.Name
+						}
+						if interesting[name] {
+							add(name)
+						}
+					case *ast.Ident:
+						if x.Name == "errNilStack" {
+							add("errNilStack")
+						}
+					case *ast.CompositeLit:
+						if exprStr(x.Type) == "inputFormatError" {
+							add("inputFormatError:" + srcStr(x.Elts[0]))
+						}
+					}
+					return true
+				})
+			}
+		}
+	}
 	// the parts of the simple tree: which constructors build them, what the constructors return, in which order the
 	// operations of *treeSimple use them
 	if fd.Recv == nil && strings.HasPrefix(fd.Name.Name, "new") && strings.HasSuffix(fd.Name.Name, "Simple") && rel != "simple_tree.go" {
@@ -686,6 +766,7 @@ func (f *facts) render() string {
 	}
 	w("/-- operation of *treeSimple ↦ the calls `t.<part>.<method>` it makes, in source order -/\ndef treeSimpleCalls : List (String × List String) := %s\n", ordMap(f.treeCalls))
 	w("/-- constructor of a part of the simple tree ↦ the struct types of the composite literals it returns (→f: it delegates to constructor f) -/\ndef ctorReturns : List (String × List String) := %s\n", ordMap(f.ctorReturns))
+	w("/-- row loop of a root generator ↦ its tests, calls, continues and returns in source order -/\ndef genSkeleton : List (String × List String) := %s\n", ordMap(f.genSkeleton))
 	w("/-- simple-mode type ↦ the methods declared on it -/\ndef simpleMethods : List (String × List String) := %s\n", strMap(f.simpleMethods))
 	w("/-- field of the treeSimple literal built by newTreeSimple ↦ the factory it calls, then the arguments -/\ndef treeSimpleFields : List (String × List String) := %s\n", ordMap(f.treeFields))
 	w("/-- factory closure of newTreeSimple ↦ the constructors it calls, in source order -/\ndef factoryCtors : List (String × List String) := %s\n", ordMap(f.factoryCtors))
